@@ -448,6 +448,18 @@ pub fn hyphen_configs() -> Vec<Conv> {
         c.subs = vec![b, cl, be];
         c
     });
+    // a subcommand whose own subcommands come from a deferred closure: everything a command gets
+    // for having subcommands (the generated `help` subcommand above all) must be there
+    push("defer:subcommands-from-closure", {
+        let mut c = CmdSpec::new("prog");
+        c.args.push(ArgSpec::flag("a", Some('a'), Some("alpha")));
+        let mut s = CmdSpec::new("sub");
+        s.args.push(ArgSpec::flag("x", Some('x'), Some("xray")));
+        s.subs.push(crate::spec::deferred_leaf_spec());
+        s.subs_deferred = true;
+        c.subs.push(s);
+        c
+    });
     // `<host> <cmd>... ; [log]`: a terminated multi-value positional in second-to-last place
     push("posorder:terminated-multiple-before-optional", {
         let mut c = CmdSpec::new("prog");
@@ -496,6 +508,13 @@ pub fn values_alphabet() -> Vec<Vec<u8>> {
 
 pub fn suggest_alphabet() -> Vec<Vec<u8>> {
     ["--relese", "--dry-ru", "--job", "--alpa", "build", "clean", "bench", "-a", "--release", "--dry-run", "--jobs=2"]
+        .iter()
+        .map(|s| s.as_bytes().to_vec())
+        .collect()
+}
+
+pub fn defer_alphabet() -> Vec<Vec<u8>> {
+    ["sub", "leaf", "help", "-x", "-z", "--zulu", "-a", "--help", "v", "-h"]
         .iter()
         .map(|s| s.as_bytes().to_vec())
         .collect()
